@@ -41,7 +41,8 @@ TECHNIQUE = ("runtime monitoring: recorded enter/leave callback histories with u
 LEVEL_TEXT = ("Exploration: every traversal the workload produces (3 entry points x 3 callback "
               "modes x all start nodes of thousands of generated trees, plus deep chains, combs "
               "and brooms) is checked event by event against the specification; held means held "
-              "on those executions, not for all trees.")
+              "on those executions, not for all trees."
+              "Start nodes are also addressed as tree[-k] / tree[np.int64(i)]; half of the leave callbacks mutate the list they receive; histories on one tree object interleave traversals with in-place re-parenting through node handles, copies and re-rootings.")
 LEVEL_NOTE = ("Trusts the harness's own children-list oracle (15 lines) and that callbacks are "
               "invoked in the calling thread; sibling order is deliberately unconstrained.")
 
